@@ -27,7 +27,7 @@ ASSUMPTIONS = [
     "default composition groups as documented: ED, RK, RKED, QNSTGHC, ALMIV, FYW, P",
     "window 0 / negative / non-integer windows are outside the quantifier (1 <= w) and not driven",
 ]
-REQUIRED = {"all": ["w_eq_1", "w_eq_N", "w_gt_N_rejected", "even_windows", "odd_windows", "delta_link_checked",
+REQUIRED = {"all": ["salted_objects", "w_eq_1", "w_eq_N", "w_gt_N_rejected", "even_windows", "odd_windows", "delta_link_checked",
                     "user_groups", "default_groups", "invalid_group_rejected", "histidine_windows", "default_window_calls", "numpy_int_windows", "windows_ge_128_sequences", "empty_user_groups", "repeated_user_groups", "more_than_1000_windows"]}
 LP = {"quick": 7, "thorough": 8}
 NRANDOM = {"quick": 500, "thorough": 3000}
